@@ -41,6 +41,9 @@ FixedMinPushOK ==
            /\ \A e \in 1..NE : P(e) = u => Ev.out[u] >= Ev.plus[e]
 FeasibleUnchangedOK == Ev.feasible => Ev.out = Ev.mean
 IdempotentOK == Ev.out2 = Ev.out
+MutationBoundsOK ==
+    \A m \in 1..Len(Ev.mt) : /\ Ev.mlo[m] <= Ev.mt[m] /\ Ev.mt[m] <= Ev.mhi[m]
+                             /\ (Ev.mroot[m] => Ev.mt[m] = Ev.mlo[m])
 FixedMeanIsInputOK == \A u \in 1..Ev.n : Ev.fixed[u] => Ev.mean[u] = Ev.tin[u]
 
 ReplayForce == Want("Minimal") /\ Ev.iters = 0 /\ ~Ev.absorb
@@ -55,6 +58,7 @@ Begin ==
                /\ (Want("FixedMeanIsInput") => M("FixedMeanIsInput", FixedMeanIsInputOK))
                /\ (Want("UnchangedIfFeasible") => M("UnchangedIfFeasible", FeasibleUnchangedOK))
                /\ (Want("Idempotent") => M("Idempotent", IdempotentOK))
+               /\ (Want("MutationBounds") => M("MutationBounds", MutationBoundsOK))
     /\ k' = IF ReplayForce THEN 1 ELSE NE + 1
     /\ UNCHANGED <<l, nacc>>
 
